@@ -12,7 +12,7 @@ import (
 )
 
 func init() {
-	register(&Rule{ID: "E-STABLE-SORT", Props: []string{"C13", "C02"}, Floor: 1,
+	register(&Rule{ID: "E-STABLE-SORT", Props: []string{"C13", "C02", "C14"}, Floor: 1,
 		Doc: "the helpers the SortByNode case of evaluate dispatches to (transitively, within the repository) call a stable sort (sort.Stable, sort.SliceStable, slices.SortStableFunc) and no unstable one",
 		Run: ruleEStableSort})
 	register(&Rule{ID: "E-LESS-STRICT", Props: []string{"C13"}, Floor: 2,
